@@ -1,7 +1,22 @@
 (* C02/Props.v — C02 (idempotence): the fixed-point theorems about the passes modelled for other properties.
    Idempotence of the whole formatter is not a theorem (it is searched by checks/c02.py); these are its
    mechanisms ("imports are normalised before sorting to maintain idempotence", "blank-line clamping and
-   trailing-newline truncation are themselves fixed points"). *)
+   trailing-newline truncation are themselves fixed points").
+
+   Part 1: sorting and range normalisation (C11, C17).
+   Part 2: the import pipeline of C10/Model.v (UseTree::normalize, normalize_use_trees_with_granularity,
+   group_imports, sorting) applied to its own output.  Vocabulary (C02/Lemmas.v):
+     GtAsym cmp      the one order law the sorts need:  cmp x y = Gt -> cmp y x <> Gt  (cmp15 and every
+                     tree_cmp U M have it: Ord for UseTree is antisymmetric)
+     self_ok t       no path (without list) of t ends in  self::self  or  self as x::self   (SelfChain)
+     nested_ok t     nested trees have a non-empty path and no visibility (true of from_ast results:
+                     ast_shape t -> nested_ok t)
+     idem_ok t       nested_ok t && self_ok t
+     item_ok t       nested trees have no visibility, and idem_ok t if t contains a comment
+     step cmp g ts   with_granularity cmp g (map (normalize cmp) ts): what one formatting pass does to a run
+                     of use declarations before grouping and sorting (run_granularity of C10/Run.v)
+   A second pass is modelled as the same function applied to the trees of the first output (from_ast of
+   the printed output is the identity on output trees: not part of the model). *)
 From V Require Import Base.Text C11.Ord C11.Model C17.Model C17.Lemmas.
 
 (* sorting an already sorted group of declarations changes nothing (stable sort by a total preorder);
@@ -21,3 +36,163 @@ Print Assumptions sort_idem.
 Theorem ranges_normalize_idem : forall rs, normalize_ranges (normalize_ranges rs) = normalize_ranges rs.
 Proof. exact nr_idem. Qed.
 Print Assumptions ranges_normalize_idem.
+
+(* ------------------------------------------------------------------ *)
+(* Part 2: the import pipeline (model of C10).  From here on insert/sort_by/normalize/item are C10's. *)
+From Coq Require Import Permutation.
+From V Require Import C10.Model C10.Lemmas C02.Lemmas.
+
+(* Ord for UseTree (style editions <= 2021) is antisymmetric for every char::is_uppercase / is_numeric *)
+Theorem use_tree_cmp_antisym : forall (U M : char -> bool) (t1 t2 : tree),
+  tree_cmp U M t2 t1 = CompOpp (tree_cmp U M t1 t2).
+Proof. exact C02.Lemmas.tree_cmp_antisym. Qed.
+Print Assumptions use_tree_cmp_antisym.
+
+(* so the comparator of the pipeline satisfies the order law of the theorems below *)
+Theorem cmp15_gt_asym : GtAsym cmp15.
+Proof. exact C02.Lemmas.cmp15_asym. Qed.
+Print Assumptions cmp15_gt_asym.
+
+(* list.sort() on use trees: sorting twice = sorting once *)
+Theorem import_sort_idem : forall (cmp : tree -> tree -> comparison) (l : list tree),
+  GtAsym cmp -> sort_by cmp (sort_by cmp l) = sort_by cmp l.
+Proof. exact C02.Lemmas.import_sort_idem. Qed.
+Print Assumptions import_sort_idem.
+
+(* normalize_idem: UseTree::normalize is a fixed point of itself, outside SelfChain *)
+Theorem normalize_idem : forall (cmp : tree -> tree -> comparison) (t : tree),
+  GtAsym cmp -> nested_ok t = true -> self_ok t = true ->
+  normalize cmp (normalize cmp t) = normalize cmp t.
+Proof. exact C02.Lemmas.normalize_idem_thm. Qed.
+Print Assumptions normalize_idem.
+
+(* the shape hypothesis holds of every from_ast result *)
+Theorem ast_shape_nested_ok : forall t : tree, ast_shape t = true -> nested_ok t = true.
+Proof. exact C02.Lemmas.ast_shape_nested_ok. Qed.
+Print Assumptions ast_shape_nested_ok.
+
+(* REFUTED without self_ok:  use a::self::self;  ->  use a::self;  ->  use a;
+   (imports.rs:568-572 pops one trailing self per call and returns) *)
+Theorem normalize_idem_refuted :
+  exists t, ast_shape t = true /\ nested_ok t = true /\ self_ok t = false /\
+    normalize cmp15 (normalize cmp15 t) <> normalize cmp15 t.
+Proof. exact C02.Lemmas.normalize_idem_refuted. Qed.
+Print Assumptions normalize_idem_refuted.
+
+(* REFUTED without nested_ok (shapes that from_ast never builds): a nested  self  with a visibility is
+   emptied by the first pass and spliced by the second; an empty nested path lets  self::self  form *)
+Theorem normalize_idem_nested_refuted :
+  (exists t, self_ok t = true /\ no_empty_kid t = true /\ nested_ok t = false /\
+     normalize cmp15 (normalize cmp15 t) <> normalize cmp15 t) /\
+  (exists t, self_ok t = true /\ novis t = true /\ nested_ok t = false /\
+     normalize cmp15 (normalize cmp15 t) <> normalize cmp15 t).
+Proof. exact C02.Lemmas.normalize_idem_nested_refuted. Qed.
+Print Assumptions normalize_idem_nested_refuted.
+
+(* REFUTED for an arbitrary comparator: with the constant Greater the sort reverses  a::{b, c}  each time *)
+Theorem normalize_idem_anycmp_refuted :
+  exists cmp t, ast_shape t = true /\ idem_ok t = true /\
+    normalize cmp (normalize cmp t) <> normalize cmp t.
+Proof. exact C02.Lemmas.normalize_idem_anycmp_refuted. Qed.
+Print Assumptions normalize_idem_anycmp_refuted.
+
+(* regroup_idem, Preserve: a second pass over any reordering of the first output changes nothing *)
+Theorem regroup_idem_preserve : forall (cmp : tree -> tree -> comparison) (ts O' : list tree),
+  GtAsym cmp -> forallb idem_ok ts = true ->
+  Permutation O' (step cmp Preserve ts) -> step cmp Preserve O' = O'.
+Proof. exact C02.Lemmas.preserve_stable. Qed.
+Print Assumptions regroup_idem_preserve.
+
+(* regroup_idem, Item: flatten, nest_trailing_self and unique() reproduce their own output, in any order *)
+Theorem regroup_idem_item : forall (cmp : tree -> tree -> comparison) (ts O' : list tree),
+  GtAsym cmp -> forallb item_ok ts = true ->
+  Permutation O' (step cmp Item ts) -> step cmp Item O' = O'.
+Proof. exact C02.Lemmas.item_stable. Qed.
+Print Assumptions regroup_idem_item.
+
+(* idem_ok implies item_ok: Item needs self_ok only for trees that contain a comment *)
+Theorem idem_ok_item_ok : forall t : tree, idem_ok t = true -> item_ok t = true.
+Proof. exact C02.Lemmas.idem_ok_item_ok. Qed.
+Print Assumptions idem_ok_item_ok.
+
+(* pipeline_idem, reduction: if the regrouping pass leaves the concatenated output groups unchanged, so
+   does the whole pipeline (group_imports and the sorts are fixed points), for every setting *)
+Theorem pipeline_idem_from_regroup : forall (cmp : tree -> tree -> comparison) (g : granularity)
+                                            (grp reorder : bool) (ts : list tree),
+  GtAsym cmp ->
+  step cmp g (concat (pipeline cmp g grp reorder ts)) = concat (pipeline cmp g grp reorder ts) ->
+  pipeline cmp g grp reorder (concat (pipeline cmp g grp reorder ts)) = pipeline cmp g grp reorder ts.
+Proof. exact C02.Lemmas.pipeline_idem_from_regroup. Qed.
+Print Assumptions pipeline_idem_from_regroup.
+
+(* pipeline_idem, Preserve *)
+Theorem pipeline_idem_preserve : forall (cmp : tree -> tree -> comparison) (grp reorder : bool)
+                                        (ts : list tree),
+  GtAsym cmp -> forallb idem_ok ts = true ->
+  pipeline cmp Preserve grp reorder (concat (pipeline cmp Preserve grp reorder ts)) =
+  pipeline cmp Preserve grp reorder ts.
+Proof. exact C02.Lemmas.pipeline_idem_preserve. Qed.
+Print Assumptions pipeline_idem_preserve.
+
+(* pipeline_idem, Item *)
+Theorem pipeline_idem_item : forall (cmp : tree -> tree -> comparison) (grp reorder : bool)
+                                    (ts : list tree),
+  GtAsym cmp -> forallb item_ok ts = true ->
+  pipeline cmp Item grp reorder (concat (pipeline cmp Item grp reorder ts)) =
+  pipeline cmp Item grp reorder ts.
+Proof. exact C02.Lemmas.pipeline_idem_item. Qed.
+Print Assumptions pipeline_idem_item.
+
+(* REFUTED (SelfChain), Preserve, Crate, One; the regrouping alone (twice_differs) and the whole pipeline
+   under every group_imports / reorder_imports setting (pipeline_twice_differs):  use a::self::self; *)
+Theorem regroup_idem_selfchain_refuted :
+  exists ts, forallb ast_shape ts = true /\
+    twice_differs Preserve ts /\ twice_differs GCrate ts /\ twice_differs One ts /\
+    pipeline_twice_differs Preserve ts /\ pipeline_twice_differs GCrate ts /\
+    pipeline_twice_differs One ts.
+Proof. exact C02.Lemmas.regroup_idem_selfchain_refuted. Qed.
+Print Assumptions regroup_idem_selfchain_refuted.
+
+(* REFUTED, Item without item_ok:  use a::{b::self::self /* c */, c}; *)
+Theorem regroup_idem_item_refuted :
+  exists ts, forallb ast_shape ts = true /\ forallb item_ok ts = false /\
+    twice_differs Item ts /\ pipeline_twice_differs Item ts.
+Proof. exact C02.Lemmas.regroup_idem_item_refuted. Qed.
+Print Assumptions regroup_idem_item_refuted.
+
+(* REFUTED, Module, on inputs that satisfy every hypothesis above (DuplicateImport):
+   use a::b::c; use a::b::d; use a::b::c;  ->  use a::b::{c, c, d};  ->  use a::b::{c, d}; *)
+Theorem regroup_idem_module_refuted :
+  exists ts, forallb ast_shape ts = true /\ forallb idem_ok ts = true /\
+    BadClass cmp15 Module ts = false /\
+    twice_differs Module ts /\ pipeline_twice_differs Module ts.
+Proof. exact C02.Lemmas.regroup_idem_module_refuted. Qed.
+Print Assumptions regroup_idem_module_refuted.
+
+(* REFUTED, Crate and One (DuplicateImport through self):
+   use b; use b::{self, a};  ->  use b::{self, self, a};  ->  use b::{self, a}; *)
+Theorem regroup_idem_crate_refuted :
+  exists ts, forallb ast_shape ts = true /\ forallb idem_ok ts = true /\
+    BadClass cmp15 GCrate ts = false /\ BadClass cmp15 One ts = false /\
+    twice_differs GCrate ts /\ pipeline_twice_differs GCrate ts /\
+    twice_differs One ts /\ pipeline_twice_differs One ts.
+Proof. exact C02.Lemmas.regroup_idem_crate_refuted. Qed.
+Print Assumptions regroup_idem_crate_refuted.
+
+(* REFUTED, Crate, without any duplicate (BareSelf):  use {self, a};  ->  use self; use a;  ->  use a;
+   (the flattened  self  is removed by the normalize of the second pass) *)
+Theorem regroup_idem_crate_bare_self_refuted :
+  exists ts, forallb ast_shape ts = true /\ forallb idem_ok ts = true /\
+    BadClass cmp15 GCrate ts = false /\ NoDup (Leaves ts) /\
+    twice_differs GCrate ts /\ pipeline_twice_differs GCrate ts.
+Proof. exact C02.Lemmas.regroup_idem_crate_bare_self_refuted. Qed.
+Print Assumptions regroup_idem_crate_bare_self_refuted.
+
+(* REFUTED, One, on plain distinct paths without self, alias, list or duplicate (MergeOrder):
+   use a::b; use a::b::c; use a;  ->  use a::{self, b, b::c};  ->  use a::{self, b::{self, c}}; *)
+Theorem regroup_idem_one_refuted :
+  exists ts, forallb ast_shape ts = true /\ forallb idem_ok ts = true /\
+    forallb noalias ts = true /\ BadClass cmp15 One ts = false /\ NoDup (Leaves ts) /\
+    twice_differs One ts /\ pipeline_twice_differs One ts.
+Proof. exact C02.Lemmas.regroup_idem_one_refuted. Qed.
+Print Assumptions regroup_idem_one_refuted.
